@@ -237,7 +237,12 @@ def classify(res, meta, unit):
             name = label
         else:
             props = fn["props"] if fn else []
-            name = "%s.%s@%s" % (fn["id"] if fn else "sidecar", kind, src or ("gen:%d" % (order[0]["line_start"] if order else 0)))
+            where = src
+            if not where and pri:
+                # the failed clause is sidecar text: name it by its own text (stable under edits of /repo)
+                txt = " ".join((t.get("text") or "").strip() for t in (pri[0].get("text") or [])[:2])
+                where = "{" + re.sub(r"\s+", " ", re.sub(r"//.*$", "", txt)).strip()[:100] + "}"
+            name = "%s.%s@%s" % (fn["id"] if fn else "sidecar", kind, where or ("gen:%d" % (order[0]["line_start"] if order else 0)))
             if label:
                 name += "(requires %s)" % label
         failures.append({"unit": unit, "fn": fn["id"] if fn else None, "label": name, "kind": kind, "msg": msg,
@@ -249,18 +254,24 @@ def verify_unit(unit):
     rs, meta = build_unit(unit)
     res = run_verus(rs)
     failures, tool = classify(res, meta, unit)
+    rl = [t for t in tool if not t.get("code") and RLIMIT_MSG.search(t.get("message") or "")]
+    tool = [t for t in tool if t not in rl]
     if tool:
         raise Inconclusive("verus/rustc error in unit %s (not a failed obligation): %s" %
                            (unit, "; ".join((t.get("message") or "")[:300] for t in tool[:3])))
+    if rl:
+        # resource limit: undecided.  Retry once with a 4x limit before giving up.
+        res = run_verus(rs, ["--rlimit", "40"])
+        failures, tool2 = classify(res, meta, unit)
+        rl2 = [t for t in tool2 if not t.get("code") and RLIMIT_MSG.search(t.get("message") or "")]
+        hard2 = [t for t in tool2 if t not in rl2]
+        if hard2:
+            raise Inconclusive("verus/rustc error in unit %s: %s" % (unit, (hard2[0].get("message") or "")[:300]))
+        if rl2 and not failures:
+            raise Inconclusive("resource limit exceeded in unit %s (%s)" % (unit, (rl2[0].get("message") or "")[:120]))
     vr = res["json"].get("verification-results", {})
     if not vr:
         raise Inconclusive("verus produced no verification results for unit %s: %s" % (unit, res["stderr"][-600:]))
-    # resource-limit failures are inconclusive: retry once with 4x rlimit
-    if any(RLIMIT_MSG.search(f["msg"]) for f in failures):
-        res = run_verus(rs, ["--rlimit", "40"])
-        failures, tool = classify(res, meta, unit)
-        if any(RLIMIT_MSG.search(f["msg"]) for f in failures) or tool:
-            raise Inconclusive("resource limit exceeded in unit %s" % unit)
     if vr.get("verified", 0) + vr.get("errors", 0) == 0:
         raise Inconclusive("unit %s generated zero obligations" % unit)
     return {"unit": unit, "rs": rs, "meta": meta, "res": res, "failures": failures}
@@ -271,9 +282,16 @@ def canary_unit(unit):
     rs, meta = build_unit(unit, canary=True)
     res = run_verus(rs)
     failures, tool = classify(res, meta, unit)
-    if tool:
-        raise Inconclusive("canary of unit %s: tool error %s" % (unit, (tool[0].get("message") or "")[:300]))
+    hard = [t for t in tool if t.get("code") or not RLIMIT_MSG.search(t.get("message") or "")]
+    if hard:
+        raise Inconclusive("canary of unit %s: tool error %s" % (unit, (hard[0].get("message") or "")[:300]))
     failed_fns = set(f["fn"] for f in failures if f["kind"] == "ensures")
+    # a canary copy that exhausts the resource limit did not verify `false` either
+    for t in tool:
+        for sp in t.get("spans", []):
+            fn = fn_of_line(meta, sp["line_start"])
+            if fn:
+                failed_fns.add(fn["id"])
     vacuous = [fn["id"] for fn in meta["functions"] if fn["id"] not in failed_fns or not fn.get("canary_ok")]
     return {"functions": len(meta["functions"]), "failed_as_expected": len(meta["functions"]) - len(vacuous), "vacuous": vacuous,
             "wall": res["wall"]}
@@ -447,13 +465,14 @@ def check_property(pid, tier, seed):
             got = cov["assumption_scan"][r["unit"]]
             if exp is not None and got != exp:
                 raise Inconclusive("assumption scan of unit %s differs from the committed allow-list: %s vs %s" % (r["unit"], got, exp))
-        # ---- vacuity canary
-        can = {}
-        for u in cfg["units"]:
-            can[u] = canary_unit(u)
-            if can[u]["vacuous"]:
-                raise Inconclusive("vacuity guard: `ensures false` verified for %s in unit %s (contradictory precondition or shim?)" % (can[u]["vacuous"], u))
-        cov["vacuity_canary"] = can
+        # ---- vacuity canary (only meaningful when the claim is "everything discharged")
+        if not relevant_fail:
+            can = {}
+            for u in cfg["units"]:
+                can[u] = canary_unit(u)
+                if can[u]["vacuous"]:
+                    raise Inconclusive("vacuity guard: `ensures false` verified for %s in unit %s (contradictory precondition or shim?)" % (can[u]["vacuous"], u))
+            cov["vacuity_canary"] = can
 
         # ---- known findings & fixed witnesses
         known = load_known()
